@@ -25,7 +25,7 @@ Proof.
   destruct (validate_signer s0 q) eqn:Evs; [eauto|].
   destruct (find_ds E (Some s0) q orig false) as [e|dss] eqn:Efd; [eauto|].
   destruct dss as [|d0 ds'].
-  - destruct (is_zone_secure E q orig zone); [eauto|discriminate].
+  - destruct (unsigned_is_bogus E q orig zone); [eauto|discriminate].
   - destruct (has_supported_ds (d0 :: ds')) eqn:Ehs; cbn [negb] in H; [|discriminate].
     destruct (verify_dnssec E s0 resp (d0 :: ds')) as [[|] [e|]] eqn:Ev; try (eauto; fail); try discriminate.
     injection H as <-. split; [left; reflexivity|]. split.
@@ -36,14 +36,14 @@ Qed.
 Lemma deleg_loop_unverified E q resp orig zone signers last ds :
   deleg_loop E q resp orig zone signers last = DUnverified ds ->
   exists s, In s signers /\ in_zone q s = true /\
-    ((find_ds E (Some s) q orig false = Ok [] /\ is_zone_secure E q orig zone = false /\ ds = []) \/
+    ((find_ds E (Some s) q orig false = Ok [] /\ unsigned_is_bogus E q orig zone = false /\ ds = []) \/
      (exists dss, find_ds E (Some s) q orig false = Ok dss /\ dss <> [] /\ has_supported_ds dss = false /\ ds = dss) \/
      (exists dss, find_ds E (Some s) q orig false = Ok dss /\ dss <> [] /\ verify_dnssec E s resp dss = (false, None) /\ ds = [])).
 Proof.
   revert last. induction signers as [|s0 rest IH]; cbn [deleg_loop]; intros last H; [discriminate|].
   assert (Hrec : forall l, deleg_loop E q resp orig zone rest l = DUnverified ds ->
             exists s, In s (s0 :: rest) /\ in_zone q s = true /\
-    ((find_ds E (Some s) q orig false = Ok [] /\ is_zone_secure E q orig zone = false /\ ds = []) \/
+    ((find_ds E (Some s) q orig false = Ok [] /\ unsigned_is_bogus E q orig zone = false /\ ds = []) \/
      (exists dss, find_ds E (Some s) q orig false = Ok dss /\ dss <> [] /\ has_supported_ds dss = false /\ ds = dss) \/
      (exists dss, find_ds E (Some s) q orig false = Ok dss /\ dss <> [] /\ verify_dnssec E s resp dss = (false, None) /\ ds = []))).
   { intros l Hl. apply IH in Hl as (s & Hi & Hr). exists s. split; [right; exact Hi|exact Hr]. }
@@ -51,7 +51,7 @@ Proof.
   assert (Hz : in_zone q s0 = true) by (unfold validate_signer in Evs; destruct (in_zone q s0); [reflexivity|discriminate]).
   destruct (find_ds E (Some s0) q orig false) as [e|dss] eqn:Efd; [eauto|].
   destruct dss as [|d0 ds'].
-  - destruct (is_zone_secure E q orig zone) eqn:Ez; [eauto|].
+  - destruct (unsigned_is_bogus E q orig zone) eqn:Ez; [eauto|].
     injection H as <-. exists s0. split; [left; reflexivity|]. split; [exact Hz|]. left. auto.
   - destruct (has_supported_ds (d0 :: ds')) eqn:Ehs; cbn [negb] in H.
     + destruct (verify_dnssec E s0 resp (d0 :: ds')) as [[|] [e|]] eqn:Ev; try (eauto; fail); try discriminate.
@@ -85,7 +85,7 @@ Inductive deleg_reason (E : env) (resp : msg) (q : name) (pds : list rr) (zone :
     deleg_reason E resp q pds zone eds ds
 | DR_signer_insecure s :     (* the signer zone itself has no DS and is not expected to be signed *)
     In s (find_signers (e_nrank E) (m_ns resp) q false) -> in_zone q s = true ->
-    find_ds E (Some s) q eds false = Ok [] -> is_zone_secure E q eds zone = false -> ds = [] ->
+    find_ds E (Some s) q eds false = Ok [] -> unsigned_is_bogus E q eds zone = false -> ds = [] ->
     deleg_reason E resp q pds zone eds ds
 | DR_signer_unsupported s dss : (* the signer's DS set is non-empty but nothing in it is usable (RFC 6840 §5.2) *)
     In s (find_signers (e_nrank E) (m_ns resp) q false) -> in_zone q s = true ->
@@ -141,7 +141,7 @@ Corollary insecure_child_needs_proof E resp q pds zone :
   (exists s dss k b, verify_dnssec E s resp dss = (true, None) /\ e_orc E k (m_id resp) q s = OOk b) \/
   (exists ins, authenticated_delegation_ds E (parent_signer zone) q eds = Ok ([], ins)) \/
   (exists s, In s (find_signers (e_nrank E) (m_ns resp) q false) /\ in_zone q s = true /\
-     ((find_ds E (Some s) q eds false = Ok [] /\ is_zone_secure E q eds zone = false) \/
+     ((find_ds E (Some s) q eds false = Ok [] /\ unsigned_is_bogus E q eds zone = false) \/
       exists dss, find_ds E (Some s) q eds false = Ok dss /\ dss <> [] /\ verify_dnssec E s resp dss = (false, None))).
 Proof.
   intros H eds He Hs. apply validate_delegation_inv in H as (_ & eds' & He' & R).
